@@ -54,7 +54,7 @@ pub fn show_request(req: &Request) -> String {
 pub fn url_info(target: &[u8]) -> String {
     match std::str::from_utf8(target) {
         Err(_) => "-".to_string(),
-        Ok(t) => match Url::options().base_url(Some(&Url::parse("http://unknown/").unwrap())).parse(t) {
+        Ok(t) => match Url::parse(&format!("http://unknown{t}")) {
             Ok(u) => format!("U:{}:{}", hex(u.path().as_bytes()), u.query().map_or("-".to_string(), |q| format!("S{}", hex(q.as_bytes())))),
             Err(_) => "E".to_string(),
         },
